@@ -563,7 +563,25 @@ fn main() {
                     let a = files[rng.gen_range(0..files.len())];
                     let b = files[rng.gen_range(0..files.len())];
                     let big: Vec<u8> = (0..rng.gen_range(1000..5000)).map(|i| (i % 251) as u8).collect();
-                    let c = match rng.gen_range(0..17) {
+                    let pick = rng.gen_range(0..18);
+                    if pick == 17 {
+                        // a handle across a move of the working directory: opened under a relative spelling, written, the cwd moves
+                        // away, then flushed and dropped - the bytes belong to the file the handle was opened on
+                        let slot = rng.gen_range(0..2);
+                        let append = rng.gen_bool(0.5);
+                        if ch.handles[slot].is_none() {
+                            ch.open_as = Some(rel_spelling(a, &ch.cwd()));
+                            ch.handle_op(&prog, id, "h_open", slot, a, &[], append);
+                            ch.handle_op(&prog, id, "h_write", slot, a, &rand_data(&mut rng), append);
+                            let to = if ch.cwd().is_empty() { "/d" } else { "/" };
+                            ch.step(&prog, id, call("set_cwd", to, ""));
+                            ch.handle_op(&prog, id, "h_flush", slot, a, &[], append);
+                            ch.handle_op(&prog, id, "h_write", slot, a, &rand_data(&mut rng), append);
+                            ch.handle_op(&prog, id, "h_drop", slot, a, &[], append);
+                        }
+                        continue;
+                    }
+                    let c = match pick {
                         // the working directory moves between "/" and "/d": handles opened under a relative spelling stay bound to
                         // the file they were opened on
                         16 => call("set_cwd", ["/", "/d"][rng.gen_range(0..2)], ""),
